@@ -155,6 +155,9 @@ def _main(spec, tier, replay, t0):
     if not ok:
         broken.append({"kind": "theorem", "file": failing, "error": mk_out[-3000:]})
     assumptions_printed = L.property_assumptions(spec.coq_targets, wd) if ok else {}
+    chk = L.coqchk(spec.coq_targets) if (ok and tier == "thorough") else {}
+    if chk and chk.get("rc") != 0:
+        broken.append({"kind": "coqchk", "detail": chk})
 
     # 4. cases through model and monitors
     mism, viol = evaluate(spec, cases)
@@ -226,14 +229,23 @@ def _main(spec, tier, replay, t0):
         keys.add(k)
         if spec.nontrivial(c):
             nontrivial += 1
-    n_obl = len(spec.obligations)
+    # obligations = the theorems actually present in the property files this check compiled
+    import re as _re
+    names = []
+    for t in spec.coq_targets:
+        v = os.path.join(L.COQ, t[:-1] if t.endswith(".vo") else t)
+        if "/Properties/" in v and os.path.exists(v):
+            names += _re.findall(r"^(?:Theorem|Example|Lemma)\s+(\w+)", open(v).read(), _re.M)
+    obligations = names or list(spec.obligations)
+    n_obl = len(obligations)
     coverage = {
         "obligations": n_obl,
         "discharged": n_obl if ok else 0,
         "checker_cmd": "make -C /verif/coq %s ; coqc gen/cases/%s/Cases_*.v" % (" ".join(spec.coq_targets), pid),
         "trusted_base": L.TRUSTED_BASE_COMMON + spec.trusted_base,
-        "theorems": spec.obligations,
+        "theorems": obligations,
         "print_assumptions": assumptions_printed,
+        "coqchk": chk,
         "evaluations": len(cases),
         "distinct_nontrivial": nontrivial,
         "rule": spec.describe_rule(),
